@@ -1,7 +1,7 @@
 (* C15/Property.v — ONLY the property theorems (each closed by a lemma of Proofs*.v) + Print Assumptions.
    Models: C15/Model.v (A: NameAuthority / graph histories, B: NameFixPass, C: rename_values). *)
 From Coq Require Import NArith List Bool Lia.
-From IRV Require Import Base.Exn C15.Model C15.ProofsA C15.ProofsA2 C15.ProofsB C15.ProofsC C15.ProofsC2 C15.ProofsC3.
+From IRV Require Import Base.Exn C15.Model C15.ProofsA C15.ProofsA2 C15.ProofsB C15.ProofsB2 C15.ProofsB3 C15.ProofsC C15.ProofsC2 C15.ProofsC3.
 Import ListNotations.
 Open Scope N_scope.
 
@@ -67,23 +67,83 @@ Proof.
 Qed.
 Print Assumptions C15_graph_history.
 
-(* ===================== (B) NameFixPass ===================== *)
+(* ===================== (B) NameFixPass (the code after fix 25cf9b5: fresh names avoid every name that
+   exists in the graph) ===================== *)
+
+(* The `while` loop of _find_and_record_next_unique_name terminates: no run, over any event list from any
+   state, ever ends in the model's out-of-fuel marker. *)
+Theorem C15_fix_fuel_suffices :
+  forall gs s, snd (fix_all gs s) <> Some OtherError.
+Proof. exact fix_all_nofuel. Qed.
+Print Assumptions C15_fix_fuel_suffices.
 
 (* FULL STATEMENT (C15_fix_total): for every model the pass returns without raising.
-   REFUTED on the code as it exists: inputs [w], initializers [w; w_1]. *)
-Theorem C15_fix_total_refuted :
-  exists main funcs vn nn inits, snd (name_fix_pass main funcs vn nn inits) = Some ValueError.
-Proof. do 5 eexists. exact fix_total_refuted. Qed.
-Print Assumptions C15_fix_total_refuted.
+   Before 25cf9b5 it was refuted (inputs [w], initializers [w; w_1] -> ValueError); that witness now passes
+   (C15_fix_total_witness_fixed).  PROVED (partial): (1) the only exception any run can end with is the
+   ValueError of the initializer name guard - never an index error on the scope stacks (the traversal's
+   enter/exit events are balanced for every nesting), never out-of-fuel; (2) a model without initializers is
+   never rejected.  MISSING for the full statement: that a fresh name (outside the pre-scanned set and the
+   current scope) never equals a key created by an earlier rename of the same run; the correspondence and the
+   oracle cover it by sampling (no raise observed). *)
+Theorem C15_fix_total_partial :
+  (forall g vn nn inits m e, snd (fix_graph_names g vn nn inits m) = Some e -> e = ValueError) /\
+  (forall main funcs vn nn inits, (forall v, owner_of v inits = None) ->
+     snd (name_fix_pass main funcs vn nn inits) = None).
+Proof. split; [exact fix_graph_names_only_valueerror | exact name_fix_pass_total_no_inits]. Qed.
+Print Assumptions C15_fix_total_partial.
 
-(* FULL STATEMENT (C15_fix_keeps_unique): a value whose non-empty name no other value carries keeps it.
-   REFUTED: inputs x, x, x_1 -> x, x_1, x_1_1. *)
-Theorem C15_fix_keeps_unique_refuted :
-  exists main vn others v nm,
-  let r := name_fix_pass main [] vn (fun _ => None) [] in
-  snd r = None /\ vn v = Some nm /\ (forall u, In u others -> vn u <> Some nm) /\ f_vn (fst r) v <> Some nm.
-Proof. exists wit_keep_graph, wit_keep_vn, [0; 1], 2, s_x1. exact fix_keeps_unique_refuted. Qed.
-Print Assumptions C15_fix_keeps_unique_refuted.
+Theorem C15_fix_total_witness_fixed :
+  let r := name_fix_pass wit_total_graph [] wit_total_vn (fun _ => None) wit_total_inits in
+  snd r = None /\ map (f_vn (fst r)) [0; 1; 2] = [Some s_w; Some [119; 95; 50]; Some s_w1] /\
+  f_inits (fst r) = [(0, [(s_w1, 2); ([119; 95; 50], 1)])].
+Proof. exact wit_total_now_ok. Qed.
+Print Assumptions C15_fix_total_witness_fixed.
+
+(* FULL STATEMENT (C15_fix_keeps_unique): names that were already unique are kept (values and nodes, whole pass).
+   Before 25cf9b5 refuted (x, x, x_1 -> x, x_1, x_1_1).  PROVED for the fixed code: in one _fix_graph_names
+   run over ANY graph (any nesting, sorted or not, with or without initializers), a value met by the traversal
+   (graph input/output, node input/output) whose non-empty name no other value carries has the same name after
+   an Ok run.  MISSING: the same for node names (same argument over the node scopes) and for values reachable
+   only through an initializer dictionary; composition over the functions of a model. *)
+Theorem C15_fix_keeps_unique_partial :
+  forall g vn nn inits m v n,
+  vn v = Some n -> n <> [] -> (forall w, w <> v -> vn w <> Some n) ->
+  In v (ev_values (events_graph g)) ->
+  forall s', fix_graph_names g vn nn inits m = (s', None) -> f_vn s' v = Some n.
+Proof. exact fix_keeps_unique_value. Qed.
+Print Assumptions C15_fix_keeps_unique_partial.
+
+Theorem C15_fix_keeps_unique_witness_fixed :
+  let r := name_fix_pass wit_keep_graph [] wit_keep_vn (fun _ => None) [] in
+  snd r = None /\ map (f_vn (fst r)) [0; 1; 2] = [Some s_x; Some [120; 95; 50]; Some s_x1].
+Proof. exact wit_keep_now_ok. Qed.
+Print Assumptions C15_fix_keeps_unique_witness_fixed.
+
+(* FULL STATEMENT (C15_fix_post): after an Ok run every node/value has a non-empty name, value names are
+   pairwise distinct within each graph and differ from visible enclosing-scope names, node names are distinct
+   per graph, initializers are keyed by their names.  PROVED (partial): the step every clause rests on - one
+   _process_value call on an unseen value either raises the initializer guard's ValueError or leaves the value
+   with a non-empty name that was NOT in the current scope's used set (which holds the names of everything
+   visible), records it there, marks the value seen, changes no other name and nothing else; a changed name
+   never equals a name that existed in the graph before the run; a seen value is never touched again.
+   MISSING: the assembly over the traversal (per-graph distinctness under the well-scoped hypothesis).
+   Without that hypothesis the statement is false: C15_fix_post_unsorted_refuted below. *)
+Theorem C15_fix_post_partial :
+  forall v s used rest, f_vscopes s = used :: rest ->
+  let '(s', e) := process_value v s in
+  if memN v (f_seen s) then s' = s /\ e = None else
+  match e with
+  | Some x => x = ValueError /\ owner_of v (f_inits s) <> None
+  | None =>
+      exists new, f_vn s' v = Some new /\ new <> [] /\ ~ In new used /\
+        f_vscopes s' = (new :: used) :: rest /\ f_seen s' = v :: f_seen s /\
+        (forall u, u <> v -> f_vn s' u = f_vn s u) /\ f_nn s' = f_nn s /\ f_nscopes s' = f_nscopes s /\
+        (forall n, f_vn s v = Some n -> n <> [] -> ~ In n used -> new = n) /\
+        (owner_of v (f_inits s) = None -> f_inits s' = f_inits s) /\
+        (f_vn s v <> Some new -> ~ In new (f_rv s)) /\ f_rv s' = f_rv s /\ f_rn s' = f_rn s
+  end.
+Proof. exact process_value_spec. Qed.
+Print Assumptions C15_fix_post_partial.
 
 (* FULL STATEMENT (C15_fix_post without a scoping hypothesis): after an Ok run the values within a graph
    have pairwise distinct names.  REFUTED for graphs that are not topologically sorted. *)
